@@ -44,7 +44,7 @@ type c6stmt struct {
 	blocks [][]*c6stmt // A, B, C / cases..., default last if hasDef
 	nCases int
 	hasDef bool
-	defPos int // position of default among the clauses in source order (0..nCases)
+	defPos int  // position of default among the clauses in source order (0..nCases)
 	list   bool // the single case clause lists two values: case 0, 1: / case c1, c2:
 	size   int
 }
@@ -765,6 +765,10 @@ func c6run(r *report.Run) {
 	narrowGen := &c6gen{stmts: map[string][]*c6stmt{}, blocks: map[string][][]*c6stmt{}, narrow: true}
 	fullGen := g
 	for size := 1; size <= maxN+1; size++ {
+		if r.Violations() > 200 {
+			r.NotExhaustive("stopped early: more than 200 violations")
+			break
+		}
 		if r.Expired() {
 			r.NotExhaustive(fmt.Sprintf("internal deadline reached before layer %d", size))
 			break
